@@ -55,6 +55,22 @@ fn create_file(dir_path: &Path, file_number: &FileNumber) -> io::Result<File> {
     Ok(file)
 }
 
+/// Makes sure the most recent wal file has its full size.
+///
+/// `create_file` creates a file and then sets its length. A crash between the two
+/// leaves a short (possibly empty) file behind: it is picked up again as the next file
+/// to write to, but the blocks written to it could not be read back.
+fn ensure_file_len(dir_path: &Path, file_number: &FileNumber) -> io::Result<()> {
+    let mut file = OpenOptions::new()
+        .write(true)
+        .open(filepath(dir_path, file_number))?;
+    let len = file.seek(SeekFrom::End(0))?;
+    if len < FILE_NUM_BYTES as u64 {
+        file.set_len(FILE_NUM_BYTES as u64)?;
+    }
+    Ok(())
+}
+
 impl Directory {
     /// Open a `Directory`, or create a new, empty, one. `dir_path` must exist and be a directory.
     pub fn open(dir_path: &Path) -> io::Result<Directory> {
@@ -74,6 +90,7 @@ impl Directory {
             }
         }
         let files = if let Some(files) = FileTracker::from_file_numbers(file_numbers) {
+            ensure_file_len(dir_path, files.last())?;
             files
         } else {
             let files = FileTracker::new();
